@@ -311,8 +311,16 @@ func (e *distEnv) stepWithFaults(k distkeeper.Keeper, fb *faultBank) distBlockOb
 		for key, v := range fb.sweepF {
 			sf[key] = append([]bool(nil), v...)
 		}
-		return func(key string) bool { return pf[key] }, func(key string, attempt int) bool {
-			if v := sf[key]; attempt < len(v) {
+		// the bank reports failures by address; the model asks by the identifier of the
+		// configuration, which may spell a base address in upper case
+		norm := func(key string) string {
+			if strings.HasPrefix(key, model.KBase+"-") {
+				return model.KBase + "-" + strings.ToLower(strings.TrimPrefix(key, model.KBase+"-"))
+			}
+			return key
+		}
+		return func(key string) bool { return pf[norm(key)] }, func(key string, attempt int) bool {
+			if v := sf[norm(key)]; attempt < len(v) {
 				return v[attempt]
 			}
 			return false
@@ -339,7 +347,7 @@ func (e *distEnv) holdings() map[string]model.Coins {
 			g = gen.ModuleAddr(strings.TrimPrefix(k, model.KModule+"-"))
 			addrs[g] = true
 		} else if strings.HasPrefix(k, model.KBase+"-") {
-			g = strings.TrimPrefix(k, model.KBase+"-")
+			g = strings.ToLower(strings.TrimPrefix(k, model.KBase+"-"))
 			addrs[g] = true
 		}
 		get(g).Add(decCoinsToModel(s.Remains))
